@@ -220,7 +220,8 @@ package vectorstore
 //@   trusted
 //@   pure
 //@   allocates
-//@   ensures result1 == nil ==> forall(k, 0, len(result0), exists(j, 0, len(ids), pid(result0[k]) == ids[j]))
+//@   ghostmap reqIdx
+//@   ensures result1 == nil ==> forall(k, 0, len(result0), 0 <= reqIdx(k) && reqIdx(k) < len(ids) && pid(result0[k]) == ids[reqIdx(k)])
 //@ func (VectorStore).Get
 //@   trusted
 //@   pure
